@@ -238,3 +238,48 @@ func VH_C07_reject() {
 	}
 	vReach("end")
 }
+
+//verif:check C03 stubs=env,valuefile,abslog reach=applied,second-round,end desc="follower side: Raft.setCommitIndex + Raft.applyCommitted + stateMachine.onApply over two commit rounds: exactly the update-typed entries of the newly committed range reach the FSM, once, in index order; other entry kinds advance fsm.index without touching the FSM" bounds="log of 3 entries after a symbolic base with symbolic kinds (update/no-op/configuration), applied position anywhere at or below the first commit"
+func VH_C03_follower_apply() {
+	r := vMkRaft(2)
+	vSymTermState(r)
+	vAssume(r.term >= 1)
+	a := vInitLog(r, 3, 1)
+	fsm := &vFSM{}
+	r.fsm.FSM = fsm
+	r.commitIndex = vU64("commitIndex")
+	vAssume(r.commitIndex <= r.lastLogIndex && r.commitIndex >= r.snaps.index && r.commitIndex >= a.base)
+	r.fsm.index = r.commitIndex
+	cfg := vStableConfig("cfg", 2, 1, 1)
+	r.configs.Latest, r.configs.Committed = cfg, cfg
+	c0 := r.commitIndex
+	for round := 0; round < 2; round++ {
+		c := vU64("newCommit")
+		vAssume(c >= r.commitIndex && c <= r.lastLogIndex)
+		if c > r.commitIndex {
+			r.setCommitIndex(c)
+			r.applyCommitted(nil)
+		}
+		vDrainFSM(r)
+		if round == 1 {
+			vReach("second-round")
+		}
+		vAssert(r.fsm.index == r.commitIndex, "A-fsm-index-equals-commit-after-apply")
+		exp := 0
+		for k, e := range vEntries {
+			idx := a.base + uint64(k) + 1
+			if idx > c0 && idx <= r.commitIndex {
+				if e.typ == entryUpdate {
+					vAssert(exp < len(fsm.updates), "A-committed-update-was-applied")
+					vAssert(bytes.Equal(fsm.updates[exp], e.data), "A-updates-applied-in-index-order")
+					exp++
+				}
+			}
+		}
+		vAssert(len(fsm.updates) == exp, "A-nothing-uncommitted-and-nothing-twice")
+		if exp > 0 {
+			vReach("applied")
+		}
+	}
+	vReach("end")
+}
